@@ -249,6 +249,9 @@ func main() {
 			fmt.Printf("UNSIM %s\n", u)
 		}
 	}
+	if *mode == "c07" {
+		skipped = append(skipped, condInParse...)
+	}
 	if len(skipped) > 0 && *mode == "c07" {
 		fmt.Fprintln(os.Stderr, "simrewrite: concurrency constructs the schedule mode cannot simulate:", strings.Join(skipped, "; "))
 		os.Exit(3)
@@ -267,6 +270,7 @@ func main() {
 // simulator has no seam for in the given package (the worlds compare the list
 // with a committed baseline and say so when the tree under test has new ones).
 var unsim []string
+var condInParse []string
 var mapsRewritten = map[string]bool{} // files in which a maps.Keys/Values/All call was replaced (the import may have become unused)
 var concSkipped []string // concurrency constructs in compile/schema that R4 could not rewrite (c11 mode)
 var unsimPos = map[string][]string{} // entry -> source positions of its occurrences
@@ -337,6 +341,10 @@ func scanUnsimulated(p *packages.Package, f *ast.File, relf string) {
 					case "sync.WaitGroup", "sync.Map", "sync.Once", "sync.Cond", "sync.Pool", "*sync.Cond":
 						if ts == "sync.Once" && (*mode == "c06" || *mode == "c07") {
 							break // rule R3 gives Once.Do a seam in these modes
+						}
+						if strings.HasSuffix(ts, "sync.Cond") && *mode == "c07" && rel == "parse" {
+							// a condition variable between lexer goroutine and parser: no seam, so no schedule mode for this tree
+							condInParse = append(condInParse, pos(p, relf, x)+" (sync.Cond)")
 						}
 						add("decl:"+ts, x)
 					}
@@ -693,9 +701,20 @@ func rewriteConcurrency(p *packages.Package, f *ast.File, relf string, sites *[]
 		n++
 		return id
 	}
-	astutil.Apply(f, func(c *astutil.Cursor) bool {
+	// (astutil.Apply does not walk a node that was put in by Replace: the parts of the old node that the
+	// replacement re-uses — the body of a range loop or of a select clause, the call of a go statement —
+	// are rewritten first, by applying pre to them explicitly)
+	var pre func(c *astutil.Cursor) bool
+	pre = func(c *astutil.Cursor) bool {
 		switch x := c.Node().(type) {
 		case *ast.SelectStmt:
+			for _, cl := range x.Body.List {
+				if cc, ok := cl.(*ast.CommClause); ok {
+					for i, st := range cc.Body {
+						cc.Body[i] = astutil.Apply(st, pre, nil).(ast.Stmt)
+					}
+				}
+			}
 			sw, why := rewriteSelect(p, relf, x, add)
 			if sw == nil {
 				skipped = append(skipped, pos(p, relf, x)+" (select statement: "+why+")")
@@ -703,10 +722,10 @@ func rewriteConcurrency(p *packages.Package, f *ast.File, relf string, sites *[]
 			}
 			handledPos[pos(p, relf, x)] = true
 			c.Replace(sw)
-			return true // bodies may contain further channel operations
+			return false
 		case *ast.GoStmt:
 			id := add(x, "go")
-			call := x.Call
+			call := astutil.Apply(x.Call, pre, nil).(*ast.CallExpr)
 			c.Replace(&ast.ExprStmt{X: simCall("Go", id, &ast.FuncLit{
 				Type: &ast.FuncType{Params: &ast.FieldList{}},
 				Body: &ast.BlockStmt{List: []ast.Stmt{&ast.ExprStmt{X: call}}},
@@ -715,7 +734,8 @@ func rewriteConcurrency(p *packages.Package, f *ast.File, relf string, sites *[]
 		case *ast.SendStmt:
 			if isChan(p, x.Chan) {
 				id := add(x, "send")
-				c.Replace(&ast.ExprStmt{X: simCall("Send", id, x.Chan, x.Value)})
+				val := astutil.Apply(x.Value, pre, nil).(ast.Expr)
+				c.Replace(&ast.ExprStmt{X: simCall("Send", id, x.Chan, val)})
 				return false
 			}
 		case *ast.RangeStmt:
@@ -725,6 +745,7 @@ func rewriteConcurrency(p *packages.Package, f *ast.File, relf string, sites *[]
 					return false
 				}
 				id := add(x, "range")
+				astutil.Apply(x.Body, pre, nil)
 				key := ast.Expr(ast.NewIdent("_"))
 				if x.Key != nil {
 					key = x.Key
@@ -733,7 +754,7 @@ func rewriteConcurrency(p *packages.Package, f *ast.File, relf string, sites *[]
 				brk := &ast.IfStmt{Cond: &ast.UnaryExpr{Op: token.NOT, X: ast.NewIdent("verifsimrtOK")}, Body: &ast.BlockStmt{List: []ast.Stmt{&ast.BranchStmt{Tok: token.BREAK}}}}
 				body := &ast.BlockStmt{List: append([]ast.Stmt{recv, brk}, x.Body.List...)}
 				c.Replace(&ast.ForStmt{Body: body})
-				return true
+				return false
 			}
 		case *ast.AssignStmt:
 			if len(x.Lhs) == 2 && len(x.Rhs) == 1 {
@@ -759,7 +780,8 @@ func rewriteConcurrency(p *packages.Package, f *ast.File, relf string, sites *[]
 			}
 		}
 		return true
-	}, nil)
+	}
+	astutil.Apply(f, pre, nil)
 	return
 }
 
